@@ -2,6 +2,7 @@
 package main
 
 import (
+	"encoding/json"
 	"flag"
 	"fmt"
 	"os"
@@ -20,9 +21,20 @@ func main() {
 	verif := flag.String("verif", "/verif", "verification root (evidence, known-findings)")
 	replay := flag.String("replay", "", "replay file: re-evaluate the property and show the matching obligation")
 	list := flag.Bool("list", false, "list implemented properties")
+	describe := flag.Bool("describe", false, "print the property definitions as JSON")
 	flag.Parse()
 	if *list {
 		fmt.Println(strings.Join(props.IDs(), " "))
+		return
+	}
+	if *describe {
+		var out []map[string]any
+		for _, id := range props.IDs() {
+			d := props.Get(id)
+			out = append(out, map[string]any{"id": d.ID, "explain": d.Explain, "not_covered": d.NotCov, "assumptions": d.Assumptions, "technique": d.Technique, "na": d.NA})
+		}
+		b, _ := json.MarshalIndent(out, "", " ")
+		fmt.Println(string(b))
 		return
 	}
 	if t := os.Getenv("VERIF_TIER"); t != "" && !isFlagSet("tier") {
